@@ -95,6 +95,15 @@ class SymList:
             if bool(c): return v          # forks when the position is symbolic
             return old_fn(i)
         self.n = old_n + 1; self.fn = fn; self._cache = {}
+    def __add__(self, other):
+        # concatenation of two lists of symbolic length: element i is self[i] for i < len(self), other[i - len(self)] after it
+        if not isinstance(other, (SymList, list)): return NotImplemented
+        n1 = self.n; n2 = other.n if isinstance(other, SymList) else len(other); a = self; b = other
+        def fn(i):
+            if isinstance(i, int) and isinstance(n1, int): return a[i] if i < n1 else b[i - n1]
+            x = a[i]; y = b[i - n1]
+            return core.Ite(i < n1, x, y)
+        return SymList(n1 + n2, fn)
     def __iter__(self):
         n = self.n if isinstance(self.n, int) else self.n.__index__()
         return iter([self[i] for i in builtins.range(n)])
